@@ -6,6 +6,7 @@ import (
 	"math/rand"
 	"os"
 	"path/filepath"
+	"runtime"
 	"strings"
 	"time"
 
@@ -432,6 +433,56 @@ func runC05(r *vf.Run) {
 					break
 				}
 			}
+		}
+		// (round 8) several indexes on ONE bbolt handle that belongs to the caller (OpenIndexFromBoltDatabase): some are
+		// dropped without Close (the handle is the caller's to close), the collector runs, and the handle and the indexes
+		// still in use keep working
+		if r.Want(id+"/caller-owned-handle") && len(ds.Rows) > 0 && len(ds.Rows) <= 20000 {
+			func() {
+				p := paths[ix.Writers[(len(ds.Rows)+1)%3]]
+				db, err := bbolt.Open(p, 0o644, &bbolt.Options{ReadOnly: true, Timeout: 30 * time.Second})
+				if err != nil {
+					r.Violation(id+"/caller-owned-handle", "open", err.Error())
+					return
+				}
+				defer db.Close()
+				ps := probeSet(rng, ds, 40, 3)
+				kept, err := updog.OpenIndexFromBoltDatabase(db)
+				if err != nil {
+					r.Violation(id+"/caller-owned-handle", "open", err.Error())
+					return
+				}
+				for round := 0; round < 3; round++ {
+					for k := 0; k < 3; k++ {
+						var opts []updog.IndexOption
+						if k == 1 {
+							opts = append(opts, updog.WithPreloadedData())
+						}
+						if tmp, err := updog.OpenIndexFromBoltDatabase(db, opts...); err == nil {
+							_, _ = runProbes(tmp, ps[:min(3, len(ps))])
+						} // dropped, not closed
+					}
+					runtime.GC()
+					time.Sleep(5 * time.Millisecond)
+					runtime.GC()
+					r.Eval(1)
+					d := ""
+					if _, d = runProbes(kept, ps); d == "" {
+						var again *updog.Index
+						if again, err = updog.OpenIndexFromBoltDatabase(db); err != nil {
+							d = "OpenIndexFromBoltDatabase on the caller's handle: " + err.Error()
+						} else {
+							_, d = runProbes(again, ps)
+						}
+					}
+					if d != "" {
+						r.Violation(id+"/caller-owned-handle", "probe", map[string]any{"difference": d, "round": round + 1,
+							"explanation": "other Index values on the same caller-owned bbolt handle had been dropped without Close and the garbage collector had run"})
+						return
+					}
+				}
+				r.Count("caller_owned_handles_shared_by_several_indexes", 1)
+			}()
 		}
 		// (round 7) a second writer is pointed at the finished output by mistake: its Flush fails, and the index that is
 		// there keeps opening and answering as before (reopen sequences include the ones around a failed write)
